@@ -25,8 +25,9 @@ import (
 // ref.go over the list of leaves the history really appended.
 
 type c06Op struct {
-	K      string `json:"k"`                // append|bulk|predict|predict1|marshal|reopen|proof|sweep|badargs|snap|restore|foreign|grid
+	K      string `json:"k"`                // append|rawlen|bulk|predict|predict1|marshal|reopen|proof|sweep|badargs|snap|restore|foreign|grid
 	Leaves []ev.B `json:"leaves,omitempty"` // explicit leaf data (append), or 32-byte leaves (predict)
+	Lens   []int  `json:"lens,omitempty"`   // rawlen: lengths of derived raw leaves
 	N      int    `json:"n,omitempty"`      // bulk/predict: number of derived 32-byte leaves
 	A      uint32 `json:"a,omitempty"`      // selector (tree size n for proofs; variant for reopen)
 	B      uint32 `json:"b,omitempty"`      // selector (leaf index m for proofs)
@@ -44,7 +45,7 @@ func c06MaxSize() int { return ev.Scale(320, 5000) }
 var c06EdgeCounts = []int{1, 2, 3, 4, 5, 7, 8, 9, 15, 16, 17, 31, 32, 33, 63, 64, 65, 127, 128, 129, 255, 256, 257}
 
 func genC06Op(t *rapid.T) c06Op {
-	k := rapid.SampledFrom([]string{"append", "append", "bulk", "bulk", "bulk", "predict", "predict1", "marshal", "reopen", "reopen",
+	k := rapid.SampledFrom([]string{"append", "append", "rawlen", "rawlen", "rawlen", "bulk", "bulk", "bulk", "predict", "predict1", "marshal", "reopen", "reopen",
 		"proof", "proof", "proof", "proof", "proof", "proof", "sweep", "badargs", "snap", "snap", "restore", "restore", "restore", "foreign"}).Draw(t, "k")
 	op := c06Op{K: k}
 	switch k {
@@ -53,6 +54,11 @@ func genC06Op(t *rapid.T) c06Op {
 		for _, l := range rapid.SliceOfN(rapid.SliceOfN(rapid.Byte(), 0, 70), 1, 3).Draw(t, "leaves") {
 			op.Leaves = append(op.Leaves, ev.B(l))
 		}
+	case "rawlen":
+		// raw leaves of chosen lengths (content derived), optionally each followed by a twin that shares its first 64 bytes
+		op.Lens = rapid.SliceOfN(rapid.OneOf(rapid.SampledFrom(rawLeafLens), rapid.SampledFrom(rawLeafLens), rapid.IntRange(0, 200), rapid.IntRange(60, 70)), 1, 4).Draw(t, "lens")
+		op.Commit = rapid.Bool().Draw(t, "twins")
+		op.A = rapid.Uint32().Draw(t, "a")
 	case "bulk":
 		op.N = rapid.OneOf(rapid.IntRange(1, 8), rapid.IntRange(1, 64), rapid.SampledFrom(c06EdgeCounts),
 			rapid.IntRange(1, ev.Scale(64, 2500))).Draw(t, "n")
@@ -85,6 +91,32 @@ func genC06(t *rapid.T) c06Case {
 	init := rapid.OneOf(rapid.Just(0), rapid.IntRange(0, 40), rapid.IntRange(0, 40), rapid.SampledFrom(c06EdgeCounts)).Draw(t, "init")
 	c.Ops = append([]c06Op{{K: "bulk", N: init}}, rapid.SliceOfN(rapid.Custom(genC06Op), 1, 40).Draw(t, "ops")...)
 	return c
+}
+
+// lengths around the 32/64-byte marks (hash-sized, node-preimage-sized) and clearly beyond
+var rawLeafLens = []int{0, 1, 31, 32, 33, 63, 64, 65, 100, 1000}
+
+// derivedBytes: n pseudo-random bytes determined by (seed, i) (SHA-256 in counter mode).
+func derivedBytes(seed uint32, i int, n int) []byte {
+	out := make([]byte, 0, n+32)
+	for blk := 0; len(out) < n; blk++ {
+		var b [16]byte
+		binary.LittleEndian.PutUint32(b[0:], seed)
+		binary.LittleEndian.PutUint64(b[4:], uint64(i))
+		binary.LittleEndian.PutUint32(b[12:], uint32(blk))
+		h := sha256.Sum256(b[:])
+		out = append(out, h[:]...)
+	}
+	return out[:n]
+}
+
+// twinLeaf: a different leaf that shares the first 64 bytes (or all of a shorter leaf) with d.
+func twinLeaf(d []byte, seed uint32, i int, extra int) []byte {
+	k := len(d)
+	if k > 64 {
+		k = 64
+	}
+	return append(append([]byte(nil), d[:k]...), derivedBytes(^seed, i, 1+extra)...)
 }
 
 func derivedLeaf(seed uint32, i int) []byte {
@@ -399,6 +431,30 @@ func runC06(ctx *ev.Ctx, c c06Case) {
 				w.appendLeaf(l)
 				w.checkState(what)
 			}
+		case "rawlen":
+			for li, ln := range op.Lens {
+				if w.size()+2 > maxSize || ln < 0 || ln > 4096 {
+					break
+				}
+				w.derived++
+				d := derivedBytes(c.Seed, w.derived, ln)
+				w.appendLeaf(d)
+				w.checkState(what)
+				if op.Commit {
+					w.appendLeaf(twinLeaf(d, c.Seed, w.derived, int(op.A>>uint(li))%40))
+					w.checkState(what + " twin")
+					ctx.Label("leaf:twin-sharing-64-byte-prefix")
+				}
+				if ln > 64 {
+					ctx.Label("leaf:longer-than-64-bytes")
+				}
+			}
+			if n := minInt(w.size(), w.proofLimit()); n > 0 {
+				w.checkPair(n-1, n) // proof, leaf path and VerifyLeafInclusion for the raw leaf just added
+				if n > 1 {
+					w.checkPair(n-2, n)
+				}
+			}
 		case "bulk":
 			for i := 0; i < op.N && w.size() < maxSize; i++ {
 				w.appendLeaf(w.nextDerived())
@@ -712,7 +768,7 @@ func TestC06(t *testing.T) {
 		}
 	}
 	ev.Drive(t, "C06",
-		"cases: histories of 2..41 operations (append explicit leaves of 0..70 bytes, bulk append, root prediction with/without commit, "+
+		"cases: histories of 2..41 operations (append explicit leaves of 0..70 bytes, raw leaves of lengths 0/1/31/32/33/63/64/65/100/1000 and 0..200 with twins sharing the first 64 bytes, bulk append, root prediction with/without commit, "+
 			"marshal/unmarshal into a fresh tree, snapshots and UnMarshal of earlier/later snapshots or of another tree's state into the live tree object "+
 			"(with a cached root / right after an append), reopen of the hash file incl. surplus hashes of uncommitted appends and truncated files, single proofs, proof sweeps, "+
 			"refused arguments) on a file-backed, memory-backed or store-less CompactMerkleTree, plus one exhaustive (m,n) grid case per shard; "+
